@@ -74,14 +74,18 @@ func tryFindFirstCharClass(node *RegexNode, ccIn **CharSet) int {
 		if cc.IsMergeable() {
 			// Everything but the excluded char can start a match. Add it as ranges: the set may
 			// already hold characters from other branches, so it cannot simply be negated.
+			// Both ranges go in at once: after the first one the set could already be rewritten to a
+			// negated normal form, and the second one would then be added to the wrong side.
+			var complement []SingleRange
 			if node.Ch > 0 {
 				// Add the range before the excluded char.
-				cc.addRange(0, (node.Ch - 1))
+				complement = append(complement, SingleRange{First: 0, Last: node.Ch - 1})
 			}
 			if node.Ch < unicode.MaxRune {
 				// Add the range after the excluded char.
-				cc.addRange(node.Ch+1, unicode.MaxRune)
+				complement = append(complement, SingleRange{First: node.Ch + 1, Last: unicode.MaxRune})
 			}
+			cc.addRanges(complement)
 			if node.T == NtNotone || node.M > 0 {
 				return 1
 			}
